@@ -59,12 +59,15 @@ def run_action_open(cfg: OpenActionConfig) -> int:
             all_targets_in_line.append(word)
         elif is_targetable_zid:
             all_targets_in_line.append(zid_word)
-        elif (
-            not found_primary_zid
+
+        # The primary ZID (if any) comes right after the prefix, so as soon as
+        # we have seen anything else (the primary ZID itself, a link, or some
+        # other word), every ZID that follows is a target.
+        if (
+            word
             and not _is_prefix_symbol(word)
             and not _is_priority(word)
             and not zdt.is_short_date_spec(word)
-            and not zdt.is_zid(word)
         ):
             found_primary_zid = True
 
